@@ -212,7 +212,7 @@ def exhaustive_items():
 
 # ----------------------------------------------------------------------------- random hierarchies
 def gen_hier(rng):
-    shape = rng.choice(["single", "linear", "linear", "diamond", "diamond", "wide"])
+    shape = rng.choice(["single", "linear", "linear", "diamond", "diamond", "wide", "mixin"])
     if shape == "single":
         classes = [("A", [])]
     elif shape == "linear":
@@ -222,6 +222,12 @@ def gen_hier(rng):
         classes = [("A", []), ("B", ["A"]), ("C", ["A"]), ("D", ["B", "C"])]
         if rng.random() < 0.3:
             classes.append(("E", ["D"]))
+    elif shape == "mixin":
+        # P is a plain helper class (not a StateMachine) listed BEFORE the machine base: what it defines overrides the
+        # inherited states of the same name, as for any Python attribute
+        classes = [("A", []), ("P", []), ("C", ["P", "A"])]
+        if rng.random() < 0.4:
+            classes.append(("D", ["C"]))
     else:
         classes = [("A", []), ("B", []), ("C", ["A", "B"])]
     out = []
@@ -229,8 +235,9 @@ def gen_hier(rng):
     p_default = rng.choice([0.1, 0.25])
     for name, bases in classes:
         members = []
-        for nm in rng.sample(POOL, rng.randrange(0, 4)):
-            r = rng.random()
+        plain = shape == "mixin" and name == "P"
+        for nm in rng.sample(POOL, rng.randrange(0, 4) if not plain else rng.randrange(1, 4)):
+            r = rng.random() if not plain else 0.0
             if r < 0.12:
                 members.append({"name": nm, "kind": rng.choice(["method", "attr"])})
             elif r < 0.12 + p_default:
@@ -239,7 +246,7 @@ def gen_hier(rng):
                 members.append({"name": nm, "kind": rng.choice(["state", "timed"]), "first": rng.random() < p_first,
                                 "doc": rng.choice([None, f"{name}.{nm} doc", f"\n    {name}.{nm}\n      indented\n    ",
                                                    f"{name}.{nm}: " + "a long description of what this state does, " * 9])})
-        out.append({"name": name, "bases": bases, "members": members})
+        out.append({"name": name, "bases": bases, "members": members, "plain": plain})
     return {"mode": "hier", "shape": shape, "classes": out, "instantiate_bases": rng.random() < 0.5, "reuse_name": rng.random() < 0.2}
 
 
@@ -266,7 +273,7 @@ def run_hier(acc, case, uid):
                 else:
                     kw = {"first": (1 if len(nm) % 2 else True)} if mb.get("first") else {}      # first=1 is as good as first=True
                     body[nm] = decs["state" if mb["kind"] == "state" else "timed_state"](_fn(nm, "self, tm", mb.get("doc")), **kw)
-            bases = tuple(built[b] for b in c["bases"]) or (SM,)
+            bases = tuple(built[b] for b in c["bases"]) or ((object,) if c.get("plain") else (SM,))
             built[c["name"]] = type(c["name"], bases, body)
             spec_of[built[c["name"]]] = c
     except Exception as e:  # noqa
@@ -321,6 +328,8 @@ def run_hier(acc, case, uid):
         acc.ev("hier-override-by-nonstate")
     if case["shape"] == "diamond":
         acc.ev("hier-diamond")
+    if case["shape"] == "mixin":
+        acc.ev("hier-plain-mixin-before-the-machine-base")
     if len(case["classes"]) >= 2 and overridden:
         acc.nontrivial.add(stable_hash(case))
     allowed = []
